@@ -40,7 +40,7 @@ def load_known(prop_id):
     if os.path.exists(KNOWN_FILE):
         for line in open(KNOWN_FILE):
             line = line.strip()
-            if not line or line.startswith('#'):
+            if not line or line.startswith('#') or line.startswith('fixed:'):
                 continue
             d = json.loads(line)
             if d['property'] != prop_id:
@@ -299,8 +299,10 @@ class Aggregate(object):
         self.viol_total = 0
 
     def add(self, case, r):
-        self.n += 1
-        if r.get('nontrivial'):
+        self.n += r.get('evaluations', 1)
+        if 'distinct_keys' in r:
+            self.signatures.update(r['distinct_keys'])
+        elif r.get('nontrivial'):
             self.signatures.add(r['signature'])
         for k, v in r.get('fired', {}).items():
             self.fired[k] = self.fired.get(k, 0) + v
